@@ -18,6 +18,9 @@ class Spec(c01.Spec):
          'init_env': True},
         {'label': 'cyclic-initial-env', 'family': 'mixed', 'cyclic': True,
          'init_env': True},
+        {'label': 'scheduled-twice', 'family': 'well', 'calls': 2},
+        {'label': 'thread-start-fails', 'family': 'well',
+         'start_fault': True},
     ]
     rule = c01.Spec.rule.replace('acyclic hard/soft graph',
                                  'hard/soft graph (acyclic or cyclic)') + \
@@ -29,7 +32,9 @@ class Spec(c01.Spec):
     def gen(self, rng, fam):
         return sched.gen_scenario(rng, family=fam['family'],
                                   cyclic=fam.get('cyclic', False),
-                                  init_env=fam.get('init_env', False))
+                                  init_env=fam.get('init_env', False),
+                                  calls=fam.get('calls', 1),
+                                  start_fault=fam.get('start_fault', False))
 
     def oracle(self, scn, res):
         return sched.oracle_c03(scn, res)
